@@ -36,4 +36,4 @@ Proof. vm_compute. repeat split; reflexivity. Qed.
 
 (* axioms the property theorems of this file depend on (one traversal for all of them) *)
 Definition C01_theorems := (@C01_parser_is_grammar, @C01_general, @C01, @C01_alternatives).
-Print Assumptions C01_theorems.
+Redirect "assumptions/C01" Print Assumptions C01_theorems.
